@@ -202,11 +202,15 @@ def splitStep (acc : Bucket × Bucket) (n : Node) : Bucket × Bucket :=
   else if acc.2.owns n.id then (acc.1, (acc.2.add n).1)
   else acc
 
+/-- capacity handed to the children: the parent's `max_size` when the source passes it on (generated flag), else the
+    constructor default `MAX_BUCKET_SIZE` -/
+def childCap (b : Bucket) : Nat := if Gen.splitChildrenInheritCap then b.cap else Gen.maxBucketSize
+
 /-- `Bucket.split`: `Bucket(self.prefix_id + "0", self.max_size)`, `Bucket(self.prefix_id + "1", self.max_size)` -/
 def split (b : Bucket) : Option (Bucket × Bucket) :=
   if b.nodes.length < b.cap then none
   else some (b.nodes.foldl splitStep
-    ({ pfx := b.pfx ++ [false], nodes := [], cap := b.cap }, { pfx := b.pfx ++ [true], nodes := [], cap := b.cap }))
+    ({ pfx := b.pfx ++ [false], nodes := [], cap := childCap b }, { pfx := b.pfx ++ [true], nodes := [], cap := childCap b }))
 
 end Bucket
 
@@ -288,7 +292,7 @@ def addFuel : Nat → RT → Node → RT × AddRes
       let b' := r.1
       let rt' : RT := { rt with trie := rt.trie.set p b' }
       if r.2 then (rt', match b'.get n.id with | some x => .stored x | none => .none)
-      else if b'.owns rt.me then
+      else if (!Gen.splitGuardOwnId || b'.owns rt.me) then
         match b'.split with
         | none => (rt', .none)
         | some (b0, b1) =>
@@ -323,7 +327,8 @@ def buckets (rt : RT) : List Bucket := rt.trie.values
 def allNodes (rt : RT) : List Node := rt.buckets.flatMap (fun b => b.nodes)
 
 /-- the filter inside closest_nodes: not BAD and not the excluded id -/
-def live (excl : Option Bits) (x : Node) : Bool := !x.bad && (excl != some x.id)
+def live (excl : Option Bits) (x : Node) : Bool :=
+  (!Gen.closestFiltersBad || !x.bad) && (!Gen.closestExcludesById || excl != some x.id)
 
 /-- buckets in the subtree below key `q`: `[trie[q + s] for s in trie.suffixes(q)]` -/
 def bucketsUnder (t : Trie Bucket) (q : Bits) : List Bucket :=
@@ -340,12 +345,15 @@ def brk (strict : Bool) (len k : Nat) : Bool := if strict then len > k else len 
 
 /-- the loop `for i in reversed(range(len(prefix) + 1))` with its break -/
 def walk (strict : Bool) (t : Trie Bucket) (excl : Option Bits) (p : Bits) (k : Nat) : Nat → List Node → List Node
-  | 0, acc => union acc (level t excl (p.take 0))
+  | 0, acc => if Gen.closestWalkFromRoot then union acc (level t excl (p.take 0)) else acc
   | i + 1, acc =>
     let acc' := union acc (level t excl (p.take (i + 1)))
     if brk strict acc'.length k then acc' else walk strict t excl p k i acc'
 
-def closer (target : Bits) (a b : Node) : Bool := dist a.id target ≤ dist b.id target
+/-- the sort key `(distance, status)`; when the source does not put the distance first (generated flag) the status leads -/
+def closer (target : Bits) (a b : Node) : Bool :=
+  if Gen.closestSortDistanceFirst then dist a.id target ≤ dist b.id target
+  else a.status < b.status || (a.status == b.status && dist a.id target ≤ dist b.id target)
 
 /-- `self.trie.longest_prefix(hash_binary, default="")` -/
 def closestPrefix (rt : RT) (target : Bits) : Bits :=
@@ -363,7 +371,8 @@ def closest (rt : RT) (target : Bits) (k : Nat) (excl : Option Bits) : List Node
     from THAT bucket; `draw k` is the value the random source returned for the bucket at key `k`.  Result: (refreshed key,
     lookup target) in key order; the code then stamps exactly these buckets. -/
 def refresh (width : Nat) (rt : RT) (stale : Bits → Bool) (draw : Bits → Nat) : List (Bits × Option Bits) :=
-  (rt.trie.keys.filter stale).filterMap (fun k => (rt.trie.get k).map (fun b => (k, b.generateId width (draw k))))
+  (rt.trie.keys.filter stale).filterMap (fun k => (rt.trie.get k).map (fun b =>
+    (k, (if Gen.refreshFromOwnGroup then b else (rt.trie.values.getLast?).getD b).generateId width (draw k))))
 
 end RT
 
